@@ -202,9 +202,13 @@ impl Check for C13 {
         tier.pick(10_000, 200_000)
     }
     fn required_counters(&self, _tier: Tier) -> Vec<&'static str> {
-        vec!["mut:content", "mut:signature", "proof:faulty", "expiry:judged", "historical:judged"]
+        vec!["mut:content", "mut:signature", "proof:faulty", "expiry:judged", "historical:judged", "node:duty-events", "node:own-quote-forged", "node:history-steps", "node:late-older-quotes", "node:inconsistent-quotes"]
     }
     fn run_case(&self, cx: &mut Cx) {
+        // every 8th case runs the node's quote-verification duty and the driver's per-peer quote history
+        if cx.index % 8 == 7 {
+            return node_case(cx);
+        }
         let kp = keypair(&mut cx.rng);
         let other = keypair(&mut cx.rng);
         let peer = PeerId::from(kp.public());
@@ -452,4 +456,169 @@ impl Check for C13 {
             }
         }
     }
+}
+
+fn metrics(live: u64, pay: usize) -> QuotingMetrics {
+    QuotingMetrics { close_records_stored: 10, max_records: 16_384, received_payment_count: pay, live_time: live, network_density: None, network_size: Some(1000) }
+}
+
+/// The node layer's duty on a QuoteVerification event (act only on an authentic own quote, pass on only quotes
+/// bound to their claimed signer) and the driver's per-peer quote history (later quotes reporting less are flagged,
+/// the newest accepted quote stays the reference whatever the delivery order).
+fn node_case(cx: &mut Cx) {
+    use crate::sim::{Policy, Sim};
+    use ant_networking::verif::LocalSwarmCmd;
+    use ant_networking::NetworkEvent;
+    let root = scratch_dir("c13n");
+    let mut sim = Sim::new(cx.rng.gen(), false);
+    sim.policy = Policy::Fifo;
+    sim.set_gates_controlled(false);
+    let own = keypair(&mut cx.rng);
+    sim.add_node(own.clone(), root.clone(), true);
+    let me = sim.nodes[0].peer;
+    let node = sim.nodes[0].node.clone().expect("node layer");
+    let now = SystemTime::now();
+    let rewards = RewardsAddress::from(cx.rng.gen::<[u8; 20]>());
+
+    // ---- part 1: the duty filter
+    for _ in 0..4 {
+        let content = XorName(cx.rng.gen());
+        let own_age = cx.rng.gen_range(20..200u64);
+        let own_ts = now - Duration::from_secs(own_age);
+        let stranger = keypair(&mut cx.rng);
+        let own_mode = cx.rng.gen_range(0..7);
+        let (own_quote, own_valid, own_label): (Option<PaymentQuote>, bool, &str) = match own_mode {
+            0 | 1 => (Some(signed_quote(&own, content, own_ts, metrics(100, 1), rewards)), true, "authentic"),
+            2 => {
+                cx.count("node:own-quote-forged");
+                (Some(signed_quote(&stranger, content, own_ts, metrics(100, 1), rewards)), false, "signed-and-keyed-by-another-node")
+            }
+            3 => {
+                cx.count("node:own-quote-forged");
+                let mut q = signed_quote(&stranger, content, own_ts, metrics(100, 1), rewards);
+                q.pub_key = own.public().encode_protobuf();
+                (Some(q), false, "our-key-foreign-signature")
+            }
+            4 => (Some(signed_quote(&own, content, now - Duration::from_secs(3600 + 1000), metrics(100, 1), rewards)), false, "expired"),
+            5 => (Some(signed_quote(&own, content, now + Duration::from_secs(1000), metrics(100, 1), rewards)), false, "future-dated"),
+            _ => (None, false, "absent"),
+        };
+        let base_ts = own_quote.as_ref().map(|q| q.timestamp).unwrap_or(own_ts);
+        let mut quotes: Vec<(PeerId, PaymentQuote)> = vec![];
+        let mut expected: Vec<Vec<u8>> = vec![];
+        for _ in 0..cx.rng.gen_range(1..=5) {
+            let kp = keypair(&mut cx.rng);
+            let claimed = if cx.rng.gen_bool(0.75) { PeerId::from(kp.public()) } else { PeerId::from(keypair(&mut cx.rng).public()) };
+            let same_target = cx.rng.gen_bool(0.75);
+            let near = cx.rng.gen_bool(0.75);
+            let gap = if near { cx.rng.gen_range(0..8u64) } else { cx.rng.gen_range(13..300u64) };
+            let ts = if cx.rng.gen_bool(0.5) { base_ts + Duration::from_secs(gap) } else { base_ts - Duration::from_secs(gap) };
+            let q = signed_quote(&kp, if same_target { content } else { XorName(cx.rng.gen()) }, ts, random_metrics(&mut cx.rng), rewards);
+            let bound = claimed == PeerId::from(kp.public());
+            if own_valid && same_target && near && bound {
+                expected.push(q.signature.clone());
+            }
+            quotes.push((claimed, q));
+        }
+        if let Some(q) = own_quote {
+            let pos = cx.rng.gen_range(0..=quotes.len());
+            quotes.insert(pos, (me, q));
+        }
+        {
+            let _g = sim.rt.enter();
+            node.handle_network_event(NetworkEvent::QuoteVerification { quotes: quotes.clone() });
+        }
+        sim.yield_rounds(12);
+        sim.collect();
+        let mut passed_on: Vec<Vec<u8>> = vec![];
+        let mut rest = std::collections::VecDeque::new();
+        while let Some(c) = sim.nodes[0].local_q.pop_front() {
+            match c {
+                LocalSwarmCmd::QuoteVerification { quotes } => passed_on.extend(quotes.into_iter().map(|(_, q)| q.signature)),
+                other => rest.push_back(other),
+            }
+        }
+        sim.nodes[0].local_q = rest;
+        cx.eval();
+        cx.count("node:duty-events");
+        passed_on.sort();
+        expected.sort();
+        let w = json!({"own_quote": own_label, "quotes": quotes.len(), "passed_on": passed_on.len(), "expected": expected.len()});
+        if !own_valid && !passed_on.is_empty() {
+            cx.violation(format!("node-acts-on-unauthentic-own-quote:{own_label}"), format!("the quote listed under this node's identity is {own_label}, yet {} quotes were passed on for the historical check", passed_on.len()), w);
+        } else if passed_on != expected {
+            cx.violation("node-duty-filter-wrong", format!("own quote {own_label}: {} quotes passed on, {} are bound to their claimed signer, for the same target and within the time window", passed_on.len(), expected.len()), w);
+        } else if cx.index % 64 == 7 {
+            cx.sample(w);
+        }
+        cx.nontrivial(&("duty", own_label, quotes.len(), passed_on.len(), cx.index));
+    }
+
+    // ---- part 2: per-peer quote history in the driver
+    // honest quotes of one peer (all on its true time line) are delivered in a shuffled order, so that older quotes
+    // arrive late; then a newer quote reporting less uptime / fewer payments than the newest one must be flagged
+    let peer_kp = keypair(&mut cx.rng);
+    let peer = PeerId::from(peer_kp.public());
+    let content = XorName(cx.rng.gen());
+    let start_age: u64 = 20_000;
+    let n = cx.rng.gen_range(3..=8);
+    let mut ages: Vec<u64> = (0..n).map(|_| cx.rng.gen_range(300..3000u64)).collect();
+    ages.sort();
+    ages.dedup();
+    let mut order: Vec<u64> = ages.clone();
+    order.reverse(); // issue order: oldest first
+    for i in 0..order.len() {
+        if cx.rng.gen_bool(0.35) {
+            let j = cx.rng.gen_range(0..order.len());
+            order.swap(i, j);
+        }
+    }
+    let mut hist = vec![];
+    let mut newest: Option<u64> = None; // age of the newest delivered quote
+    let mut ok = true;
+    let deliver = |sim: &mut Sim, q: PaymentQuote| {
+        let _g = sim.rt.enter();
+        let _ = sim.nodes[0].drv.verif_handle_local_cmd(LocalSwarmCmd::QuoteVerification { quotes: vec![(peer, q)] });
+    };
+    let flagged = |sim: &Sim| sim.nodes[0].drv.verif_node_issues().iter().any(|(p, names, _)| *p == peer && names.iter().any(|n| n == "BadQuoting"));
+    for age in order {
+        let (live, pay) = (start_age - age, ((start_age - age) / 400) as usize);
+        if newest.map(|a| age > a).unwrap_or(false) {
+            cx.count("node:late-older-quotes");
+        }
+        deliver(&mut sim, signed_quote(&peer_kp, content, now - Duration::from_secs(age), metrics(live, pay), rewards));
+        newest = Some(newest.map(|a| a.min(age)).unwrap_or(age));
+        cx.eval();
+        cx.count("node:history-steps");
+        hist.push(json!({"age_s": age, "live_time": live, "payments": pay, "kind": "honest"}));
+        let w = json!({"deliveries": hist});
+        if flagged(&sim) {
+            cx.violation("consistent-quote-flagged", format!("after {} quotes that all lie on one true time line the peer is recorded for bad quoting", hist.len()), w);
+            ok = false;
+            break;
+        }
+        let kept_age = sim.nodes[0].drv.verif_quotes_history().into_iter().find(|(p, _)| *p == peer).and_then(|(_, q)| now.duration_since(q.timestamp).ok()).map(|d| d.as_secs());
+        if kept_age != newest {
+            cx.violation("quote-history-reference-is-not-the-newest-quote", format!("the driver keeps a quote of age {kept_age:?} s as reference, the newest one delivered is {newest:?} s old"), w);
+            ok = false;
+            break;
+        }
+    }
+    if ok {
+        if let Some(na) = newest {
+            let age = na - cx.rng.gen_range(50..250);
+            let (true_live, true_pay) = (start_age - na, ((start_age - na) / 400) as usize);
+            let (live, pay, label) = if cx.rng.gen_bool(0.5) { (true_live - cx.rng.gen_range(1..2000), true_pay, "later-quote-with-less-uptime") } else { (start_age - age, true_pay - cx.rng.gen_range(1..10), "later-quote-with-fewer-payments") };
+            deliver(&mut sim, signed_quote(&peer_kp, content, now - Duration::from_secs(age), metrics(live, pay), rewards));
+            cx.eval();
+            cx.count("node:inconsistent-quotes");
+            hist.push(json!({"age_s": age, "live_time": live, "payments": pay, "kind": label}));
+            if !flagged(&sim) {
+                cx.violation(format!("inconsistent-later-quote-not-flagged:{label}"), format!("a quote issued after all others ({age} s ago) reports {label} than the newest earlier one ({na} s ago: live {true_live}, payments {true_pay}) and was not flagged"), json!({"deliveries": hist}));
+            }
+        }
+    }
+    cx.nontrivial(&("history", h64(&serde_json::to_string(&hist).unwrap_or_default())));
+    drop(sim);
+    let _ = std::fs::remove_dir_all(&root);
 }
